@@ -97,6 +97,10 @@ def recorded_index(cx):
                     d = dict(e[2])
                     ok_idx = from_param(h, site, d.get("index", ("?",)))
                     ok_req = from_param(h, site, d.get("req", ("?",)))
+                    # acks: iter::once(self_id).collect() -- the set holding exactly that one id
+                    ak = d.get("acks", ("?",))
+                    if ak[0] == "call" and ak[1].endswith("::collect") and len(ak[2]) == 1 and ak[2][0][0] == "call" and ak[2][0][1].endswith("iter::sources::once::once") and len(ak[2][0][2]) == 1:
+                        ok_ack = ok_ack or from_param(h, site, ak[2][0][2][0])
         ins = [c for c in cx.prog.call_sites_of("HashSet::insert") if c.fn is h]
         for c in ins:
             ok_ack = ok_ack or from_param(h, site, call_args(cx, c)[1])
